@@ -250,6 +250,11 @@ type model struct {
 	committed map[string]bool
 	buffer    [][2]*types.Vote
 	reported  [][2]*types.Vote // every pair of conflicting votes consensus ever reported
+	// committed items in commit order; blind = committed through Update alone while not pending in this pool
+	committedList []*mItem
+	blind         map[string]bool
+	blindCommits  int
+	blindReoffers int
 	drift     int // upper bound of the tolerated Size() excess (known finding kfSizeDrift only)
 
 	commits, reoffers, expiries, restarts, reports, reportsFlushed, dupLists int
@@ -301,7 +306,12 @@ func (m *model) excluded(x *mItem, r refOut) bool {
 func (m *model) drawItem(t *rapid.T, validOnly bool) (*mItem, refOut, bool) {
 	for try := 0; try < 4; try++ {
 		var x *mItem
-		if len(m.universe) > 0 && rapid.IntRange(0, 9).Draw(t, "reuse") < 5 {
+		reuse := rapid.IntRange(0, 9).Draw(t, "reuse")
+		if !validOnly && len(m.committedList) > 0 && reuse < 2 {
+			// re-offer something that was committed (the most recent ones are the ones still fresh)
+			n := len(m.committedList)
+			x = m.committedList[n-1-rapid.IntRange(0, min(n, 3)-1).Draw(t, "recent")]
+		} else if len(m.universe) > 0 && reuse < 5 {
 			x = rapid.SampledFrom(m.universe).Draw(t, "known")
 		} else {
 			it := m.w.genItem(t)
@@ -488,15 +498,47 @@ func TestLifecycle(t *testing.T) {
 	rapid.Check(t, func(t *rapid.T) {
 		w := newWorld(t)
 		defer w.c.Close()
-		m := &model{w: w, db: dbm.NewMemDB(), byContent: map[string]*mItem{}, pending: map[string]*mItem{}, committed: map[string]bool{}}
+		m := &model{w: w, db: dbm.NewMemDB(), byContent: map[string]*mItem{}, pending: map[string]*mItem{}, committed: map[string]bool{},
+			blind: map[string]bool{}}
 		m.pool = w.newPool(t, m.db)
 		w.c.SetEvidencePool(m.pool)
 		kinds := map[string]bool{}
 
-		advance := func(t *rapid.T, withEvidence bool) {
+		// advance: mode "" = no evidence; "validated" = consensus path (ValidateBlock -> CheckEvidence, then ApplyBlock);
+		// "blocksync" = block sync / handshake replay: ApplyBlock -> Update only, the pool never checked the evidence
+		// and need not have it pending (nobody gossiped it to this node, or only another pool instance ever saw it).
+		advance := func(t *rapid.T, mode string) {
 			plan := w.genPlan(t)
 			var list []*mItem
-			if withEvidence {
+			blind := 0
+			if mode == "blocksync" {
+				for i, n := 0, rapid.IntRange(1, 2).Draw(t, "nblind"); i < n; i++ {
+					x, _, ok := m.drawItem(t, true)
+					if !ok || m.committed[x.hash] {
+						continue
+					}
+					dup := false
+					for _, y := range list {
+						dup = dup || y.hash == x.hash
+					}
+					if dup {
+						continue
+					}
+					if m.pending[x.hash] == nil {
+						blind++
+					}
+					list = append(list, x)
+				}
+				if len(list) > 0 && rapid.Bool().Draw(t, "otherpool") {
+					// the block was validated by ANOTHER pool instance on the same stores (e.g. before the evidence DB
+					// was lost / on the node we sync from): it must accept the list; this pool learns nothing from it
+					other := w.newPool(t, dbm.NewMemDB())
+					if err := other.CheckEvidence(evList(list)); err != nil {
+						m.fatalf(t, "a pool that never saw %s rejects it: %v", names(list), short(err))
+					}
+				}
+			}
+			if mode == "validated" {
 				var cand []*mItem
 				var keys []string
 				for h := range m.pending {
@@ -527,7 +569,7 @@ func TestLifecycle(t *testing.T) {
 					}
 				}
 			}
-			if len(list) > 0 {
+			if len(list) > 0 && mode == "validated" {
 				// consensus validates the block's evidence (BlockExecutor.ValidateBlock -> CheckEvidence) when it
 				// prevotes and once more when it finalizes the commit; ApplyBlock itself only calls Update.
 				for _, stage := range []string{"prevote", "finalize"} {
@@ -564,17 +606,26 @@ func TestLifecycle(t *testing.T) {
 			m.buffer = nil
 			for _, x := range list {
 				delete(m.pending, x.hash)
+				if !m.committed[x.hash] {
+					m.committedList = append(m.committedList, x)
+				}
 				m.committed[x.hash] = true
 				kinds["committed:"+x.it.kind] = true
 			}
 			if len(list) > 0 {
 				m.commits++
 			}
-			m.log("advance -> tip=%d time=+%s committed=%s", tip, w.tipTime().Sub(w.c.Blocks[1].Time), names(list))
+			if blind > 0 {
+				m.blindCommits++
+				for _, x := range list {
+					m.blind[x.hash] = true
+				}
+			}
+			m.log("advance(%s) -> tip=%d time=+%s committed=%s never-pending=%d", mode, tip, w.tipTime().Sub(w.c.Blocks[1].Time), names(list), blind)
 		}
 
 		for i, n := 0, rapid.IntRange(2, 4).Draw(t, "prefix"); i < n; i++ {
-			advance(t, false)
+			advance(t, "")
 		}
 		m.invariant(t)
 
@@ -590,6 +641,9 @@ func TestLifecycle(t *testing.T) {
 				err := poolErr(t, []types.Evidence{x.ev}, e0, p0)
 				if wasCommitted {
 					m.reoffers++
+					if m.blind[x.hash] {
+						m.blindReoffers++
+					}
 				}
 				m.log("add %s@%d#%X ref=%s(%s) pending=%v committed=%v -> err=%v", x.it, x.h, x.hash[:3], r.v, r.why, wasPending, wasCommitted, err != nil)
 				lib.Class(name, "kind:"+x.it.kind, fmt.Sprintf("add:%s:%v", r.v, err == nil))
@@ -630,6 +684,9 @@ func TestLifecycle(t *testing.T) {
 				for _, x := range list {
 					if m.committed[x.hash] {
 						m.reoffers++
+						if m.blind[x.hash] {
+							m.blindReoffers++
+						}
 					}
 				}
 				ok := m.check(t, list, "block")
@@ -643,7 +700,20 @@ func TestLifecycle(t *testing.T) {
 					h = w.pickHeight(t, "report.h", 1, tip)
 				}
 				a, b, _ := w.genVotes(t, h)
-				if len(m.reported) > 0 && rapid.IntRange(0, 2).Draw(t, "again") == 0 {
+				var offence *types.DuplicateVoteEvidence
+				if n := len(m.committedList); n > 0 && rapid.IntRange(0, 3).Draw(t, "committed-offence") == 0 {
+					// consensus (e.g. replaying its WAL, or a late peer) sees the two votes of an offence that is already
+					// committed on chain
+					x := m.committedList[n-1-rapid.IntRange(0, min(n, 3)-1).Draw(t, "recent")]
+					offence, _ = x.ev.(*types.DuplicateVoteEvidence)
+					if offence != nil && m.blind[x.hash] {
+						m.blindReoffers++
+					}
+				}
+				if offence != nil {
+					a, b, h = offence.VoteA, offence.VoteB, offence.VoteA.Height
+					m.reoffers++
+				} else if len(m.reported) > 0 && rapid.IntRange(0, 2).Draw(t, "again") == 0 {
 					// consensus sees the same pair again (e.g. from another peer, or after the evidence was committed)
 					pr := rapid.SampledFrom(m.reported).Draw(t, "pair")
 					a, b, h = pr[0], pr[1], pr[0].Height
@@ -658,8 +728,9 @@ func TestLifecycle(t *testing.T) {
 				m.reports++
 				m.log("report votes h=%d (tip=%d)", h, tip)
 			},
-			"advance":          func(t *rapid.T) { advance(t, false) },
-			"advance-evidence": func(t *rapid.T) { advance(t, true) },
+			"advance":           func(t *rapid.T) { advance(t, "") },
+			"advance-evidence":  func(t *rapid.T) { advance(t, "validated") },
+			"advance-blocksync": func(t *rapid.T) { advance(t, "blocksync") },
 			"pending": func(t *rapid.T) {
 				all, total := m.pool.PendingEvidence(-1)
 				max := int64(-1)
@@ -717,7 +788,8 @@ func TestLifecycle(t *testing.T) {
 		sort.Strings(ks)
 		cls := []string{fmt.Sprintf("commits:%d", min(m.commits, 3)), fmt.Sprintf("reoffers-of-committed:%d", min(m.reoffers, 3)),
 			fmt.Sprintf("expiries:%d", min(m.expiries, 3)), fmt.Sprintf("restarts:%d", min(m.restarts, 2)),
-			fmt.Sprintf("reports-flushed:%d", min(m.reportsFlushed, 3)), fmt.Sprintf("lists-with-repeats:%d", min(m.dupLists, 2))}
+			fmt.Sprintf("reports-flushed:%d", min(m.reportsFlushed, 3)), fmt.Sprintf("lists-with-repeats:%d", min(m.dupLists, 2)),
+			fmt.Sprintf("commits-never-pending:%d", min(m.blindCommits, 3)), fmt.Sprintf("reoffers-of-never-pending-committed:%d", min(m.blindReoffers, 3))}
 		cls = append(cls, ks...)
 		lib.Case(name, lib.FP(strings.Join(m.ops, ";")), nontrivial, cls...)
 		if nontrivial && lib.WantSample(name) {
